@@ -348,7 +348,7 @@ func runC06(t *testing.T, c AuditCase) (*h.Violation, h.Info) {
 var c06 = &h.Campaign[AuditCase]{
 	Prop: "C06", Sub: "audit",
 	Rule: "rapid: C01-style scenarios (superuser pre-history, 1-2 restricted callers with generated rule sets, 1-25 calls of every kind incl. conditional gets) on db.DB with a recording audit sink (every Write/Sync logged together with whether the database file still equals its pre-call bytes) and a fault plan: the k-th Write fails (nothing or half the record written) or the k-th Sync fails, k anywhere in the history; per call the set of required records comes from the ACL+map model; non-trivial = scenario has a denial AND a delivery AND (an unchanged conditional get OR an injected sink fault that hits an allowed mutation); distinct by scenario",
-	Quick: 6000, Thorough: 300000,
+	Quick: 6000, Thorough: 800000,
 	Gen:   genAuditCase,
 	Run:   runC06,
 }
@@ -461,7 +461,7 @@ func runC06Conc(t *testing.T, c ConcAuditCase) (*h.Violation, h.Info) {
 var c06conc = &h.Campaign[ConcAuditCase]{
 	Prop: "C06", Sub: "concurrent",
 	Rule: "rapid: 2-8 goroutines x 5-40 calls (all kinds whose logging does not depend on state: get, get-version, info, put, activate, delete-version, delete, list; allowed and denied by generated rule sets) started together on one db.DB writing to a real audit.NewFile log, under the race detector; afterwards every line of the file must be one complete record and the multiset of (caller, action, secret, version, authorized) must equal the calls made; non-trivial = >= 2 goroutines and >= 10 calls; distinct by scenario",
-	Quick: 150, Thorough: 6000,
+	Quick: 150, Thorough: 20000,
 	Gen: func(rt *rapid.T) ConcAuditCase {
 		g := rapid.IntRange(2, 8).Draw(rt, "goroutines")
 		c := ConcAuditCase{}
